@@ -123,7 +123,7 @@ def gen_ty(rng, sch: Schema, depth: int, lower_classes: list, extras: bool):
     if r < 0.33:
         return ("opq",)
     if r < 0.36:
-        if extras and rng.random() < 0.5:
+        if extras and rng.random() < 0.5 and not WIRE_SIDE[0]:
             sch.model = False
             return ("leaf", "bytearray")
         return ("atom", "str")
@@ -451,14 +451,19 @@ def distinct_hashables(rng, t, sch, n, wire=False):
     out, seen = [], set()
     for _ in range(n * 4):
         s = gen_value_src(rng, t, sch, 1, wire=wire)
-        if s not in seen:
-            seen.add(s)
+        key = s
+        if t[0] == "seq" and t[1] in SET_LIKE:
+            # [1, 2] and [2, 1] denote the same frozenset: distinct as values, not as text
+            key = frozenset(eval(s, {"frozenset": frozenset, "set": set}))
+        if key not in seen:
+            seen.add(key)
             out.append(s)
         if len(out) >= n:
             break
     return out
 
 
+WIRE_SIDE = [False]   # generating for the decode side
 NATURAL = [False]     # inside a Union the packer dispatches on `value.__class__ is C`: use exactly the origin's class
 NO_NONE = [False]     # TOML dialect omits None-valued fields: keep None out of those cases
 
@@ -1114,6 +1119,7 @@ class Case:
 
 def build_case(rng, side: str, depth: int, extras: bool):
     focus = rng.random() < 0.35
+    WIRE_SIDE[0] = side == "unpack"
     sch = gen_schema_focus(rng) if focus else gen_schema(rng, depth, extras)
     entry = gen_entry(rng, sch, side)
     if focus and entry["api"] == "codec" and rng.random() < 0.75:
@@ -1139,6 +1145,32 @@ def build_case(rng, side: str, depth: int, extras: bool):
         NO_NONE[0] = False
     c.call_src = entry_call_src(entry, ty_src(top, sch), side)
     return c
+
+
+def fixed_cases(rng, side: str):
+    """always-run probes: every format mixin and codec on one class holding every simple container field"""
+    out = []
+    plans = [("dict", {"api": "mixin", "fmt": None}), ("orjson", {"api": "mixin", "fmt": "orjson"}),
+             ("msgpack", {"api": "mixin", "fmt": "msgpack"}), ("orjson", {"api": "mixin", "fmt": None}),
+             ("dict", {"api": "codec", "fmt": None, "dd": None})]
+    if side == "pack":
+        plans += [("toml", {"api": "mixin", "fmt": "toml"}), ("dict", {"api": "codec", "fmt": "msgpack", "dd": None})]
+    for base, entry in plans:
+        sch = Schema()
+        sch.dialects = [["list", "dict"]]
+        sch.classes = [{"name": "C0", "base": base, "sup": False, "dialect": None,
+                        "fields": [(f"f{j}", t) for j, t in enumerate(SIMPLE_FIELDS)]}]
+        c = Case()
+        c.side, c.sch, c.entry, c.top, c.focus = side, sch, entry, ("dc", 0), True
+        c.src = schema_src(sch, c.top)
+        NO_NONE[0] = entry["fmt"] == "toml"
+        try:
+            c.value_src = gen_value_src(rng, c.top, sch, 2, wire=(side == "unpack"))
+        finally:
+            NO_NONE[0] = False
+        c.call_src = entry_call_src(entry, ty_src(c.top, sch), side)
+        out.append(c)
+    return out
 
 
 def run_case(c: Case):
@@ -1400,17 +1432,18 @@ def run(ctx: vlib.Ctx):
                            "generated inputs; in the Coq model it holds by construction (pure functions)")
     ctx.theorems("props/C18_share.vo", THEOREMS)
 
-    n_pack = ctx.budget(420, 5200)
-    n_unpack = ctx.budget(180, 1800)
+    n_pack = ctx.budget(420, 3600)
+    n_unpack = ctx.budget(180, 1200)
     for side, n in (("pack", n_pack), ("unpack", n_unpack)):
         cases = []
         attempts = 0
+        probes = fixed_cases(ctx.rng, side)
         while len(cases) < n and attempts < n * 3:
             attempts += 1
             extras = ctx.rng.random() < 0.3
             depth = ctx.rng.choice([1, 2, 2, 3, 3] if ctx.quick() else [1, 2, 3, 3, 4])
             try:
-                c = build_case(ctx.rng, side, depth, extras)
+                c = probes.pop() if probes else build_case(ctx.rng, side, depth, extras)
                 run_case(c)
             except Exception as e:      # schema the library rejects at class creation: not a C18 matter
                 ctx.hist("outcome", "schema-rejected:" + type(e).__name__)
